@@ -154,11 +154,10 @@ func krModel(reqs []kreq, db map[keyReq]krec, dbErr bool, fetchers []*fetcherScr
 		}
 		return all
 	}
-	early := len(have) == len(reqs)
-	if perKey {
-		early = len(have) == len(needed)
-	}
-	if early && check() {
+	// "It succeeds whenever the database ... supplies such a key": the database keys are tried first, whatever else
+	// the batch contains; when they settle every request nothing is fetched or stored
+	_ = perKey
+	if check() {
 		return ok, false, nil, false
 	}
 	for _, f := range fetchers {
@@ -184,6 +183,11 @@ func krModel(reqs []kreq, db map[keyReq]krec, dbErr bool, fetchers []*fetcherScr
 		}
 		fetched = true
 		for k, r := range got {
+			// what the fetcher was asked for supersedes the held record; a key it volunteers is only taken when
+			// none is held (it must not displace the database's or an earlier fetcher's answer)
+			if _, held := have[k]; held && !outstanding[k] {
+				continue
+			}
 			have[k] = r
 			delete(outstanding, k)
 		}
@@ -414,9 +418,6 @@ func runKeyRing(c *mon.Ctx, name string, desc map[string]any, reqs []kreq, db ma
 						break
 					}
 					if string(got.Key) != string(want.pub) || int64(got.ValidUntilTS) != want.validUntil || int64(got.ExpiredTS) != want.expired {
-						if _, collide := collidingExtras(fetchers)[k]; collide {
-							continue
-						}
 						c.Failf("keyring:stored-record-differs", "StoreKeys received another record for %s/%s than the source that answered it supplied (valid_until %d vs %d, expired %d vs %d)\n%s", k.ServerName, k.KeyID, got.ValidUntilTS, want.validUntil, got.ExpiredTS, want.expired, fmtDesc(desc))
 						break
 					}
@@ -607,6 +608,16 @@ func runC12(c *mon.Ctx) {
 		}
 		if r.Chance(0.2) {
 			f1.extras[keyReq{ServerName: "unrelated.example", KeyID: "ed25519:z"}] = krec{pub: w.bad[[2]string{"a.example", "ed25519:k1"}].Pub, validUntil: nowMs + 48*hourMs}
+		}
+		if r.Chance(0.25) {
+			// a fetcher volunteers, along with whatever it was asked for, a record for one of the batch's own keys:
+			// stale, or another key altogether
+			f := gen.Pick(r, []*fetcherScript{f1, f2})
+			s, kid := gen.Pick(r, servers), gen.Pick(r, []string{"ed25519:k1", "ed25519:k2"})
+			if rec, ok := w.rec(s, kid, gen.Pick(r, []string{"wrong-key", "stale-not-covering", "expired-before-ts"}), ts, nowMs); ok {
+				f.extras[keyReq{ServerName: spec.ServerName(s), KeyID: gmsl.KeyID(kid)}] = rec
+				states["volunteered by "+f.name] = s + "/" + kid
+			}
 		}
 		var fs []*fetcherScript
 		switch r.Intn(4) {
@@ -926,6 +937,42 @@ func c12KeyResponses(c *mon.Ctx, w *keyWorld, r *gen.Rand) {
 				}
 			}
 		})
+	}
+	// a key document of one server that also carries a member resembling "server_name" (another letter case, a letter
+	// that case-folds to ASCII) naming another server, and a signature of its own key under that other name: self-signed,
+	// notarised, and none of the victim's business
+	if c.Shard == 0 {
+		for _, variant := range gen.FoldVariants("server_name") {
+			evil, victim := "c.example", "a.example"
+			ek := w.keys[[2]string{evil, "ed25519:k1"}]
+			c.Case("perspective-fetcher:lookalike-server-name", map[string]any{"member": variant, "document_of": evil, "names": victim}, func() {
+				c.Nontrivial("lookalike-server-name|" + variant)
+				obj := ref.O("server_name", ref.S(evil), variant, ref.S(victim), "valid_until_ts", ref.I(time.Now().UnixMilli()+48*hourMs),
+					"verify_keys", ref.O("ed25519:k1", ref.O("key", ref.S(spec.Base64Bytes(ek.Pub).Encode()))))
+				msg := gen.Plain().Bytes(obj)
+				for _, sg := range [][2]string{{evil, "ed25519:k1"}, {victim, "ed25519:k1"}} {
+					var err error
+					if msg, err = gmsl.SignJSON(sg[0], gmsl.KeyID(sg[1]), ek.Priv, msg); err != nil {
+						panic(err)
+					}
+				}
+				msg, _ = gmsl.SignJSON(notary.Server, gmsl.KeyID(notary.KeyID), notary.Priv, msg)
+				sk, err := parseServerKeys(msg)
+				if err != nil {
+					c.Count("lookalike_server_name_unparsable")
+					return
+				}
+				pc := &scriptedKeyClient{notary: map[string]func() ([]gmsl.ServerKeys, error){"notary.example": func() ([]gmsl.ServerKeys, error) { return []gmsl.ServerKeys{sk}, nil }}}
+				pf := &gmsl.PerspectiveKeyFetcher{PerspectiveServerName: "notary.example", PerspectiveServerKeys: map[gmsl.KeyID]ed25519.PublicKey{gmsl.KeyID(notary.KeyID): notary.Pub}, Client: pc}
+				res, _ := pf.FetchKeys(context.Background(), map[keyReq]spec.Timestamp{{ServerName: spec.ServerName(evil), KeyID: "ed25519:k1"}: 0})
+				c.Count("perspective_fetches")
+				for k, v := range res {
+					if string(k.ServerName) == victim && string(v.Key) == string(ek.Pub) {
+						c.Failf("perspective:key-filed-under-another-servers-name", "a key document of %s carrying the extra member %q: %q yields %s's key as the key %s of %s", evil, variant, victim, evil, k.KeyID, victim)
+					}
+				}
+			})
+		}
 	}
 	c.Floor("direct_fetches", 50)
 	c.Floor("perspective_fetches", 50)
